@@ -65,12 +65,22 @@ func (u *sigUniverse) entry(rng *rand.Rand, decodableOnly bool) (t util.EFIGUID,
 	case k == 8:
 		return signature.CERT_SHA1_GUID, o, randBytes(rng, 20)[:20], "sha1-undecodable"
 	default:
-		g, _ := genGUID(rng)
-		return g, o, pick(rng, u.hashes), "unknown-type"
+		// one fixed unknown type per universe, so that histories return to it
+		return u.unknownType(), o, pick(rng, u.hashes), "unknown-type"
 	}
 }
 
-func (u *sigUniverse) freshList(rng *rand.Rand) *signature.SignatureList {
+func (u *sigUniverse) unknownType() util.EFIGUID {
+	return util.EFIGUID{Data1: 0xfeedface, Data2: 0x1234, Data3: 0x5678, Data4: [8]byte{1, 2, 3, 4, 5, 6, 7, 8}}
+}
+
+func (u *sigUniverse) freshList(rng *rand.Rand, decodableOnly bool) *signature.SignatureList {
+	if !decodableOnly && rng.Intn(4) == 0 {
+		// AppendList takes any list: one of a type the library does not know
+		l := signature.NewSignatureList(u.unknownType())
+		l.AppendBytes(pick(rng, u.owners), pick(rng, u.hashes))
+		return l
+	}
 	if rng.Intn(2) == 0 {
 		l := signature.NewSignatureList(gSHA256)
 		for i := 0; i < 1+rng.Intn(2); i++ {
@@ -130,13 +140,13 @@ func (u *sigUniverse) genOps(rng *rand.Rand, n int, decodableOnly bool) []string
 			}
 			ops = append(ops, fmt.Sprintf("Q~%s~%s~%s", guidArg(e.t), guidArg(e.o), hx(e.d)))
 		case k < 17:
-			l := u.freshList(rng)
+			l := u.freshList(rng, decodableOnly)
 			ops = append(ops, "L~"+listArg(l))
 			for _, s := range l.Signatures {
 				added = append(added, ent{l.SignatureType, s.Owner, s.Data})
 			}
 		case k < 18:
-			l := u.freshList(rng)
+			l := u.freshList(rng, decodableOnly)
 			ops = append(ops, "X~"+listArg(l))
 		default:
 			if !decodableOnly || true {
@@ -149,7 +159,7 @@ func (u *sigUniverse) genOps(rng *rand.Rand, n int, decodableOnly bool) []string
 
 func init() {
 	checkers["C09"] = checker{
-		rule: "random histories of append / remove / entry query / list query / append-list (fresh non-empty lists) / encode-decode over a colliding universe (3 owners; SHA-256, X.509, SHA-1 (valid but undecodable) and unknown types; 4 hashes, 31/33/0-byte hashes, 4 certificates as DER and PEM, two of equal DER length, one whose DER length equals another's PEM length), from the empty database or from a decoded stream (incl. two same-size X.509 lists); the implementation runs the history in the sandboxed worker reporting result, database and answer after each step; R_C09 (extracted run_history) checks each step against the ordered-entry view, the list invariants and the model; non-trivial = the history has a successful append and a successful remove; distinct by history hash",
+		rule: "random histories of append / remove / entry query / list query / append-list (fresh non-empty lists, also of a type the library does not know, which later appends name again) / encode-decode over a colliding universe (3 owners; SHA-256, X.509, SHA-1 (valid but undecodable) and unknown types; 4 hashes, 31/33/0-byte hashes, 4 certificates as DER and PEM, two of equal DER length, one whose DER length equals another's PEM length), from the empty database or from a decoded stream (incl. two same-size X.509 lists); the implementation runs the history in the sandboxed worker reporting result, database and answer after each step; R_C09 (extracted run_history) checks each step against the ordered-entry view, the list invariants and the model; non-trivial = the history has a successful append and a successful remove; distinct by history hash",
 		run:  runC09,
 	}
 }
